@@ -22,6 +22,7 @@ pub mod c09;
 pub mod c10;
 pub mod c13;
 pub mod c14;
+pub mod c15;
 pub mod c16;
 pub mod c17;
 pub mod c18;
@@ -355,11 +356,15 @@ pub fn workload(name: &str, tier: &str) -> Option<Box<dyn Workload>> {
             n: if quick { 600 } else { 12_000 },
         })),
         "c17" => Some(Box::new(c17::Navigation {
-            n: if quick { 48 } else { 1500 },
+            n: if quick { 160 } else { 1500 },
             stride: 1,
         })),
         "c18" => Some(Box::new(c18::Renames {
-            n: if quick { 64 } else { 1000 },
+            n: if quick { 192 } else { 1000 },
+        })),
+        "c15" => Some(Box::new(c15::Histories {
+            n: if quick { 640 } else { 5000 },
+            max_steps: if quick { 25 } else { 60 },
         })),
         "c14" => Some(Box::new(c14::Bases {
             n: if quick { 3000 } else { 100_000 },
@@ -425,6 +430,7 @@ pub fn run_check(ctx: &Ctx) -> i32 {
         "C16" => c16::run(ctx),
         "C13" => c13::run(ctx),
         "C14" => c14::run(ctx),
+        "C15" => c15::run(ctx),
         "C17" => c17::run(ctx),
         "C18" => c18::run(ctx),
         "C01" => c01::run(ctx),
